@@ -4,6 +4,7 @@ import (
 	"bytes"
 	"fmt"
 	"os"
+	"path/filepath"
 	"sort"
 	"time"
 
@@ -108,6 +109,14 @@ func (e *DefaultCompactionExecutor) CompactFiles(task *CompactionTask) ([]string
 		)
 	}
 
+	// A tombstone may only be dropped if nothing it shadows can be left behind:
+	// older versions of its key live in tables at the target level or deeper, so
+	// if any such table is not part of this compaction every tombstone is kept
+	olderTablesRemain, err := e.tablesOutsideTask(task)
+	if err != nil {
+		return nil, err
+	}
+
 	// Create the first output file
 	if err := createNewOutputFile(); err != nil {
 		return nil, err
@@ -130,7 +139,9 @@ func (e *DefaultCompactionExecutor) CompactFiles(task *CompactionTask) ([]string
 		var shouldKeep bool
 		isTombstone := mergedIter.IsTombstone()
 
-		if tombstoneFilter != nil && isTombstone {
+		if isTombstone && olderTablesRemain {
+			shouldKeep = true
+		} else if tombstoneFilter != nil && isTombstone {
 			// Use the tombstone filter for tombstones
 			shouldKeep = tombstoneFilter.ShouldKeep(key, nil)
 		} else {
@@ -181,6 +192,38 @@ func (e *DefaultCompactionExecutor) CompactFiles(task *CompactionTask) ([]string
 	verifhook.At1("cmp.outputs.done", uint64(len(outputFiles)))
 
 	return outputFiles, nil
+}
+
+// tablesOutsideTask reports whether the SSTable directory holds a table at the
+// task's target level or deeper that is not one of the task's inputs
+func (e *DefaultCompactionExecutor) tablesOutsideTask(task *CompactionTask) (bool, error) {
+	inputs := make(map[string]bool)
+	for _, files := range task.InputFiles {
+		for _, file := range files {
+			inputs[filepath.Base(file.Path)] = true
+		}
+	}
+
+	entries, err := os.ReadDir(e.sstableDir)
+	if err != nil {
+		if os.IsNotExist(err) {
+			return false, nil
+		}
+		return false, fmt.Errorf("failed to read SSTable directory: %w", err)
+	}
+
+	for _, entry := range entries {
+		var level int
+		var sequence uint64
+		var timestamp int64
+		if n, err := fmt.Sscanf(entry.Name(), "%d_%06d_%020d.sst", &level, &sequence, &timestamp); n != 3 || err != nil {
+			continue
+		}
+		if level >= task.TargetLevel && !inputs[entry.Name()] {
+			return true, nil
+		}
+	}
+	return false, nil
 }
 
 // DeleteCompactedFiles removes the input files that were successfully compacted
